@@ -39,12 +39,20 @@ pub fn decode_dynamic(fmt: &str, t: &J, bytes: &[u8], pos: usize, le: bool, nfds
         h.extend_from_slice(bytes);
         (h, p0, hl)
     } else {
-        let mut b = bytes.to_vec();
+        // GVariant: a serialised value does not depend on its position once aligned.  Strip the
+        // leading alignment padding (checked against the specification separately, as part of
+        // the encoded bytes) and decode `value 0 signature` as a variant at position 0.
+        #[cfg(feature = "gvariant")]
+        let al = parse_sig(t).alignment(Format::GVariant);
+        #[cfg(not(feature = "gvariant"))]
+        let al = 1usize;
+        let kpad = ((al - pos % al) % al).min(bytes.len());
+        let mut b = bytes[kpad..].to_vec();
         b.push(0);
         b.extend_from_slice(sig.as_bytes());
-        (b, pos, 0usize)
+        (b, 0usize, kpad)
     };
-    let total = buf.len();
+    let sig_len = sig.len();
     let c = ctx(fmt, le, p0);
     let r = guarded(move || {
         let data = Data::new_fds(buf, c, fds);
@@ -62,7 +70,7 @@ pub fn decode_dynamic(fmt: &str, t: &J, bytes: &[u8], pos: usize, le: bool, nfds
         Err(p) => json!({"outcome":"panic","msg":p}),
         Ok(Err(e)) => json!({"outcome":"err","msg":e}),
         Ok(Ok((tt, av, n))) => {
-            let consumed = if fmt == "dbus" { n as i64 - hdr as i64 } else { n as i64 - (total - bytes.len()) as i64 };
+            let consumed = if fmt == "dbus" { n as i64 - hdr as i64 } else { n as i64 - (sig_len as i64 + 1) + hdr as i64 };
             json!({"outcome":"ok","T":tt,"v":av,"consumed":consumed})
         }
     }
